@@ -664,3 +664,17 @@ pub fn est_policy(p: &GPolicy) -> J {
     }
     J::Object(m)
 }
+
+/// JSON cannot carry records with the reserved keys `__entity`, `__extn`, `__expr`
+pub fn value_json_representable(v: &GValue) -> bool {
+    match v {
+        GValue::Set(xs) => xs.iter().all(value_json_representable),
+        GValue::Rec(m) => m.iter().all(|(k, v)| !matches!(k.as_str(), "__entity" | "__extn" | "__expr") && value_json_representable(v)),
+        _ => true,
+    }
+}
+
+pub fn world_json_representable(w: &GWorld) -> bool {
+    let rec_ok = |m: &std::collections::BTreeMap<String, GValue>| value_json_representable(&GValue::Rec(m.clone()));
+    rec_ok(&w.context) && w.entities.values().all(|e| rec_ok(&e.attrs) && rec_ok(&e.tags))
+}
